@@ -72,6 +72,8 @@ pub fn check(scn: &Scenario, stats: &mut Stats) -> Vec<Violation> {
         spec.want_snapshot = true;
         let o = lint::run(&spec);
         stats.inc("t1_incarnations");
+        // the schedule this incarnation actually saw (hash order of the function map, pre-sort order)
+        stats.signatures.insert(crate::rng::mix(&[wh, crate::rng::hash_str(&format!("{:?}", o.sig))]));
         if o.panic.is_some() || o.import_budget_exceeded {
             stats.inc("skipped_crash_or_hang(C06's subject)");
             return out;
